@@ -190,7 +190,7 @@ fn arg(args: &[String], name: &str) -> Option<String> {
 }
 
 /// `main` of every generated subject program.
-pub fn main(subjects: Vec<Box<dyn DynSubject>>, lay: (Layouts, BTreeMap<String, usize>)) {
+pub fn main(subjects: Vec<Box<dyn DynSubject>>, lay: (Layouts, BTreeMap<String, usize>), seqs: Vec<crate::seq::SeqEntry>) {
     let args: Vec<String> = std::env::args().collect();
     let upath = arg(&args, "--universe").expect("--universe");
     let prop = arg(&args, "--prop").expect("--prop");
@@ -231,9 +231,22 @@ pub fn main(subjects: Vec<Box<dyn DynSubject>>, lay: (Layouts, BTreeMap<String, 
         return;
     }
 
-    let check: CheckFn = crate::checks::lookup(&prop).unwrap_or_else(|| panic!("unknown property {}", prop));
+    if prop == "C19" {
+        let start = std::time::Instant::now();
+        let rep = crate::checks::cursor::run(tier, seed, replay.as_ref());
+        let mut j = rep.to_json();
+        j["wall_s"] = json!(start.elapsed().as_secs_f64());
+        j["subjects"] = json!(crate::checks::cursor::ALIGNMENTS.len());
+        j["universe"] = json!("-");
+        std::fs::write(&out, serde_json::to_string(&j).unwrap()).unwrap();
+        return;
+    }
+    let check: CheckFn = if prop == "C16" { |_, _, _, _| {} } else { crate::checks::lookup(&prop).unwrap_or_else(|| panic!("unknown property {}", prop)) };
     let start = std::time::Instant::now();
-    let idxs: Vec<usize> = (0..subjects.len()).filter(|i| only.map_or(true, |o| o == *i)).collect();
+    let mut idxs: Vec<usize> = (0..subjects.len()).filter(|i| only.map_or(true, |o| o == *i)).collect();
+    if prop == "C16" {
+        idxs.retain(|i| seqs.iter().any(|e| e.subject_index == *i));
+    }
     let next = std::sync::atomic::AtomicUsize::new(0);
     let merged = std::sync::Mutex::new(Report::default());
     let default_cases = cases_override.unwrap_or_else(|| crate::checks::default_cases(&prop, tier));
@@ -263,10 +276,42 @@ pub fn main(subjects: Vec<Box<dyn DynSubject>>, lay: (Layouts, BTreeMap<String, 
                     if std::env::var_os("VERIF_TRACE").is_some() {
                         eprintln!("SUBJECT {} {}", i, subjects[i].name());
                     }
-                    if let Some(r) = &replay {
+                    if prop == "C16" {
+                        let entry = seqs.iter().find(|e| e.subject_index == i).unwrap();
+                        if let Some(r) = &replay {
+                            if r.get("subject").and_then(|s| s.as_str()) == Some(subjects[i].name()) {
+                                if let Some(v) = r.get("val").and_then(|v| serde_json::from_value::<Val>(v.clone()).ok()) {
+                                    crate::checks::REPLAY_VAL.with(|c| *c.borrow_mut() = Some(v));
+                                }
+                                crate::seq::c16(&ctx, &*subjects[i], &u.subjects[i], entry, &mut rep);
+                                crate::checks::REPLAY_VAL.with(|c| *c.borrow_mut() = None);
+                            }
+                        } else {
+                            let res = guard(|| crate::seq::c16(&ctx, &*subjects[i], &u.subjects[i], entry, &mut rep));
+                            if let Err(p) = res {
+                                rep.notes.push(format!("harness panic in C16: {}", p));
+                            }
+                        }
+                    } else if let Some(r) = &replay {
                         crate::checks::replay(&ctx, &*subjects[i], &u.subjects[i], r, &mut rep);
+                        if prop == "C13" && r.get("subject").and_then(|s| s.as_str()) == Some(subjects[i].name()) {
+                            if let Some(entry) = seqs.iter().find(|e| e.subject_index == i) {
+                                if let Some(v) = r.get("val").and_then(|v| serde_json::from_value::<Val>(v.clone()).ok()) {
+                                    crate::checks::REPLAY_VAL.with(|c| *c.borrow_mut() = Some(v));
+                                    crate::seq::c13_sources(&ctx, &*subjects[i], &u.subjects[i], entry, &mut rep);
+                                    crate::checks::REPLAY_VAL.with(|c| *c.borrow_mut() = None);
+                                }
+                            }
+                        }
                     } else {
-                        let res = guard(|| check(&ctx, &*subjects[i], &u.subjects[i], &mut rep));
+                        let res = guard(|| {
+                            check(&ctx, &*subjects[i], &u.subjects[i], &mut rep);
+                            if prop == "C13" {
+                                if let Some(entry) = seqs.iter().find(|e| e.subject_index == i) {
+                                    crate::seq::c13_sources(&ctx, &*subjects[i], &u.subjects[i], entry, &mut rep);
+                                }
+                            }
+                        });
                         if let Err(p) = res {
                             rep.failures.push(Failure {
                                 property: prop.clone(),
